@@ -405,6 +405,12 @@ _tg, _te = _thr.make(T_CALLS, ['geodepy/transform.py', 'geodepy/constants.py'], 
                      triple=('wrap_rev_2041', 'wrap_rev_2000', 'apm_2030'))
 
 
+from gpmc import callforms as _cf
+
+
+from gpmc import interp as _ip
+
+
 SUBCHECKS = [
     Sub('constants', gen_const, ev_const, chunk=1, floor=1, parallel=False),
     Sub('epoch', gen_epoch, ev_epoch, chunk=2, floor=1000, guard=True, envs=1),
@@ -412,6 +418,8 @@ SUBCHECKS = [
     Sub('wrappers', gen_wrap, ev_wrap, chunk=1, floor=200, guard=True, envs=1),
     Sub('covariance', gen_cov, ev_cov, chunk=1, floor=50, guard=True, envs=1),
     Sub('threads', _tg, _te, chunk=1, floor=3, poison=False, fresh=True, timeout=3600),
+    Sub('callforms', *_cf.make('C07', 'transform'), chunk=1, floor=1, guard=True),
+    Sub('interpreter', *_ip.make('C07', 'transform'), chunk=1, floor=5, poison=False),
 ]
 
 
